@@ -959,3 +959,75 @@ Print Assumptions C14_tie_fs_pass_sim.
 Theorem C14_tie_fs_comp_read_sim : ltac:(let t := type of @SrcTie3CompFs.fs_comp_read_sim in exact t).
 Proof. exact (@SrcTie3CompFs.fs_comp_read_sim). Qed.
 Print Assumptions C14_tie_fs_comp_read_sim.
+
+(* ================= work package `carry2`: C14 with GENERATED code on both sides =================
+   The TRANSLATED ArchiveWriter (gen/Src2.v, folded over a call list by CarryWriter.src_wrun) after ANY clean call
+   list — flushes anywhere; the bytes its destination holds are what a flush makes durable when no layer is below —
+   and the TRANSLATED convert_to_archive (gen/Src3r.v) over any RdBounded source refining those bytes read-only:
+   Ok, every started file is there, and every byte appended to every file before that point comes back.
+   ComposeFlush.flush_then_repair_plain through src_wrun_model and conv_of_repair (theories/Carry2Misc.v). *)
+From MLA Require SrcTie2 SrcTie3Repair SrcTie3RepairLoop CarryWriter CarryRepair Carry2Misc.
+From MLAGen Require Src2 Src3r.
+Theorem C14_flush_then_repair_plain_src {LIM : Limit} :
+  forall FNMAX CACHE : N, FNMAX < 2 ^ 64 -> 0 < CACHE ->
+  forall TS TC TA TE : N,
+    TS <> TC /\ TS <> TA /\ TS <> TE /\ TC <> TA /\ TC <> TE /\ TA <> TE ->
+  forall H : bytes -> bytes, (forall x, len (H x) = 32) ->
+  forall order ops (sw : Src2.ArchiveWriter) rs,
+    CarryWriter.src_wrun FNMAX TS TC TA TE H order CarryWriter.aw0 ops = (sw, rs) ->
+    Forall (fun x => clean (fst x) (snd x)) (combine ops rs) ->
+    Forall op_ok ops -> Src2.next_id sw < 2 ^ 64 ->
+  forall (S : Stream) (I : st S -> N -> Prop) (s0 : st S) (fuel : nat),
+    SrcTie3Repair.RdBounded S -> RdRefines (rd S) (Src2.dest sw) I -> I s0 0 -> (N.to_nat (len (Src2.dest sw)) < fuel)%nat ->
+    snd (Src3r.convert_to_archive FNMAX CACHE TS TC TA TE H (SrcTie2.footer_ser (fun f => f)) (fun _ => Ok tt) S
+           (SrcTie3RepairLoop.block_from FNMAX TS TC TA TE S) fuel s0 SrcTie3RepairLoop.aw_init) <> Err EDeser ->
+    exists bl (l : Src3r.Locals S) (e : Src3r.FailSafeReadError) obl,
+      Src2.dest sw = body TS TC TA TE bl /\ wf_blocks FNMAX H bl /\ Src2.files_info sw = name_list (files_of bl) /\
+      Src3r.convert_to_archive FNMAX CACHE TS TC TA TE H (SrcTie2.footer_ser (fun f => f)) (fun _ => Ok tt) S
+        (SrcTie3RepairLoop.block_from FNMAX TS TC TA TE S) fuel s0 SrcTie3RepairLoop.aw_init = (l, Ok e) /\
+      SrcTie3RepairLoop.status_of e = (FEofNextBlock, unfinished_of (files_of bl)) /\
+      good_output FNMAX TS TC TA TE H (SrcTie2.absW (Src3r.l_output S l)) obl /\ Forall2 same (files_of bl) (files_of obl) /\
+      forall name id, In (name, id) (Src2.files_info sw) ->
+        content_of (files_of obl) name = appended FNMAX TS TC TA TE H order id w_init ops.
+Proof. exact Carry2Misc.flush_then_repair_plain_src. Qed.
+
+(* non-vacuity THROUGH THE GENERATED CODE: the call list of C14_example_archive run by the translated writer,
+   its destination repaired by the translated function through a source of 3-byte reads; and the premises hold *)
+Section C14_examples_carry2.
+Local Hint Extern 0 Limit => exact Src.BINCODE_MAX_DESERIALIZE_prod : typeclass_instances.
+Definition ex_src_run := CarryWriter.src_wrun 48 0 1 254 255 ex_H (fun f => f) CarryWriter.aw0 ex_ops.
+Example C14_example_flush_then_repair_src_computed :
+  let w := Src2.dest (fst ex_src_run) in
+  match Src3r.convert_to_archive 48 4 0 1 254 255 ex_H (SrcTie2.footer_ser (fun f => f)) (fun _ => Ok tt) (Throttled w)
+          (SrcTie3RepairLoop.block_from 48 0 1 254 255 (Throttled w)) 300 (0, [3]) SrcTie3RepairLoop.aw_init with
+  | (l, Ok e) =>
+    SrcTie3RepairLoop.status_of e = (FEofNextBlock, [[97]; [98]]) /\
+    w_files (SrcTie2.absW (Src3r.l_output _ l)) = [([97], 0); ([98], 1)] /\ w = w_out (fst ex_run)
+  | _ => False
+  end.
+Proof. vm_compute. repeat split; reflexivity. Qed.
+Example C14_example_flush_then_repair_src :
+  let w := Src2.dest (fst ex_src_run) in
+  exists l e obl,
+    Src3r.convert_to_archive 48 4 0 1 254 255 ex_H (SrcTie2.footer_ser (fun f => f)) (fun _ => Ok tt) (Throttled w)
+      (SrcTie3RepairLoop.block_from 48 0 1 254 255 (Throttled w)) 300 (0, [3]) SrcTie3RepairLoop.aw_init = (l, Ok e) /\
+    good_output 48 0 1 254 255 ex_H (SrcTie2.absW (Src3r.l_output _ l)) obl /\
+    content_of (files_of obl) [97] = map N.of_nat (seq 0 70) /\ content_of (files_of obl) [98] = [7; 8].
+Proof.
+  intros w.
+  destruct (C14_flush_then_repair_plain_src 48 4 ltac:(lia) ltac:(lia) 0 1 254 255
+              ltac:(repeat split; discriminate) ex_H ex_H_len (fun f => f) ex_ops (fst ex_src_run) (snd ex_src_run)
+              ltac:(vm_compute; reflexivity)
+              ltac:(vm_compute; repeat constructor; cbn; discriminate)
+              ltac:(repeat constructor; cbn; lia) ltac:(vm_compute; reflexivity)
+              (Throttled w) _ (0, [3]) 300%nat (CarryRepair.RdBounded_throttled _)
+              (fun s q n HI => ref_rd _ _ _ (throttled_refines w) s q n HI)
+              ltac:(split; [reflexivity | apply N.le_0_l]) ltac:(vm_compute; lia) ltac:(vm_compute; discriminate))
+    as (bl & l & e & obl & _ & _ & _ & Hc & _ & Hg & _ & Hcon).
+  exists l, e, obl. split; [exact Hc|]. split; [exact Hg|]. split.
+  - rewrite (Hcon [97] 0) by (vm_compute; auto). vm_compute. reflexivity.
+  - rewrite (Hcon [98] 1) by (vm_compute; auto). vm_compute. reflexivity.
+Qed.
+End C14_examples_carry2.
+Print Assumptions C14_flush_then_repair_plain_src.
+Print Assumptions C14_example_flush_then_repair_src.
